@@ -46,6 +46,10 @@ TRANSPORT_FAULTS = {
     "read_timeout": lambda req: httpx.ReadTimeout("simulated read timeout", request=req),
     "remote_protocol_error": lambda req: httpx.RemoteProtocolError("simulated peer closed connection", request=req),
     "write_error": lambda req: httpx.WriteError("simulated broken pipe", request=req),
+    # exceptions from outside httpx's hierarchy: a user-supplied transport (or a library below it) may raise anything, and the
+    # request had left when the peer reset the connection
+    "raw_connection_reset": lambda req: ConnectionResetError(104, "simulated connection reset by peer"),
+    "raw_runtime_error": lambda req: RuntimeError("simulated failure inside a user-supplied transport"),
 }
 FAULT_BEFORE_SERVER = ("connect_error", "write_error")
 
